@@ -111,6 +111,18 @@ example : (0 : Rat) < 3/4 ∧ (3/4 : Rat) < 1 ∧ boundaryF (3/4) = 3/4 := by de
 /-- …and a ratio below 1/2 that round-trips (a multiple of 2^-53). -/
 example : boundaryF (ofBits 0x3FC0000000000004) = ofBits 0x3FC0000000000004 := by decide +kernel
 
+/-- Sterbenz range, full statement — NOT proved in general: every binary64 ratio in [1/2, 1]
+    round-trips (`r ⊖ 1` and `1 ⊕ (r ⊖ 1)` are exact), hence `partition_f64_partial` applies to it.
+    Missing: an exactness lemma for `rne53` on multiples of 2^-53 of magnitude ≤ 1
+    (`rneNat (m * 2^j) false = m * 2^j` for `m < 2^53`, `j ≥ 1`, and the `Rat.num/den` bookkeeping). -/
+def roundtrip_half_full : Prop := ∀ r : Rat, IsF64 r → 1/2 ≤ r → r ≤ 1 → boundaryF r = r
+
+/-- Kernel-evaluated instances of `roundtrip_half_full` (1/2, its successor, 0.8, the predecessor of 1, 1). -/
+theorem roundtrip_half_samples_partial :
+    boundaryF (1/2) = 1/2 ∧ boundaryF (ofBits 0x3FE0000000000001) = ofBits 0x3FE0000000000001 ∧
+    boundaryF (ofBits 0x3FE999999999999A) = ofBits 0x3FE999999999999A ∧
+    boundaryF (ofBits 0x3FEFFFFFFFFFFFFF) = ofBits 0x3FEFFFFFFFFFFFFF ∧ boundaryF 1 = 1 := by decide +kernel
+
 /-- Edge `r = 1` in binary64: partition for every offset below 1. -/
 theorem partition_f64_one (o : Rat) (ho0 : 0 ≤ o) (ho1 : o < 1) :
     selF 1 o = true ∧ selF (complF 1) o = false := by
